@@ -296,6 +296,22 @@ func runCorpus(r *runner, ord *int64) {
 			nLab++
 		}
 	}
+	// every corpus option value through every exported dhcpv6 option type's FromBytes
+	// (the fixed-layout types need 12..25 well-formed octets, which (a) cannot reach)
+	var typedV6 []*entry
+	for _, t := range typedRegistry() {
+		if t.pkg == "dhcpv6" {
+			typedV6 = append(typedV6, typedEntry(t))
+		}
+	}
+	nVal6 := 0
+	for _, in := range append(corpus6.Reduced(), corpus6.NTPSubInstances()...) {
+		p := append([]byte(nil), in.Build().ToBytes()...)
+		for _, e := range typedV6 {
+			jobs = append(jobs, job{e, "value-of(" + in.Name + ")", p, nil, ""})
+			nVal6++
+		}
+	}
 	// DHCPv4 packets, option lists and option values
 	v4 := v4Corpus()
 	typedV4 := []*entry{}
@@ -350,7 +366,7 @@ func runCorpus(r *runner, ord *int64) {
 	})
 	*ord += int64(len(jobs)) * 65536
 	r.c.Scope("b:corpus-perturbations", "v6_messages", len(v6), "v6_single_options", nOpt, "duids", nDuid, "label_lists", nLab,
-		"v4_packets", len(v4), "v4_option_values_x_typed_decoders", nVal, "substitution_values", fw.Hex(subs), "cases", cases, "by_kind", kinds,
+		"v4_packets", len(v4), "v4_option_values_x_typed_decoders", nVal, "v6_option_values_x_typed_decoders", nVal6, "substitution_values", fw.Hex(subs), "cases", cases, "by_kind", kinds,
 		"perturbations", "valid; truncation at every offset; every single-byte substitution at every offset; every length field (option lengths at every nesting level, item lengths of user-class/vendor-class/boot-file-param lists, label length octets, DHCPv4 option and sub-option lengths) set to 0, n-1, n+1, ff/ffff; bases longer than 640 bytes: first 448 and last 64 offsets only",
 		"v6_bases", "every corpus6 instance at top level of a message and of a relay and inside every container (IA_NA, IA_TA, IA_PD, IAADDR, IAPREFIX, vendor-opts, NTP, 4RD, relay-msg); NTP sub-option instances; corpus6 chains; corpus6 messages (relay chains depth 0..8, DHCPv4-in-DHCPv6, long lists); ZTP vendor strings x {vendor-class, vendor-opts} x {no client id, DUID-EN, DUID-LL} at message and relay level; Mellanox sub-options; remote-id / interface-id strings at relay depth 1 and 2; MAC-extraction branches; netboot messages",
 		"v4_bases", "all typed options in one packet (request and reply); every ZTP class-identifier string (with and without host name / client id); VIVC values; circuit-id strings per regular expression (relayed and not relayed); netboot offer/ack variants")
